@@ -116,8 +116,10 @@ TABLE = [
 
 def tasks(tier, seed):
     out = grid.table_tasks(TABLE, tier, seed, maxp_quick=200)
+    # Lambert W next to the branch point needs extra bits that grow with the precision: include a 3000-bit rung (cheap: ~6 s)
+    out += [('fn', i, 3000) for i, e in enumerate(TABLE) if e['fn'] == 'lambertw' and e.get('bound')]
     if tier == 'thorough':
-        out += [('fn', i, 3000) for i, e in enumerate(TABLE) if e['fn'] == 'lambertw']
+        out += [('fn', i, 3000) for i, e in enumerate(TABLE) if e['fn'] == 'lambertw' and not e.get('bound')]
     return out
 
 
